@@ -36,16 +36,16 @@ def gen_case(rng, nsched):
 
 SMALL = [
     # (object, threads, spurious, preemption bound); the first three are also explored in the quick tier
-    ("pool 1 1", [["run 1", "run 2", "stop"]], True, 2),
+    ("pool 1 1", [["run 1", "run 2", "stop"]], True, 3),
     ("pool 1 0", [["run 1", "run 2"], ["stop"]], False, 2),
-    ("pool 2 1", [["run 1", "run 2"], ["stop"]], False, 2),
+    ("pool 1 2", [["run 1", "run 2", "run 3", "run 4"], ["stop"]], False, 2),
     ("pool 0 1", [["run 1", "stop", "run 2"], ["run 3"]], False, 2),
     ("pool 1 1", [["run 1", "run 2"], ["run 3"], ["stop"]], False, 2),
-    ("pool 2 2", [["run 1", "run 2", "run 3"], ["stop"]], True, 1),
-    ("pool 2 1", [["run 1"], ["run 2", "stop", "run 3"]], False, 2),
-    ("pool 3 0", [["run 1", "run 2"], ["run 3", "stop"]], False, 1),
-    ("pool 1 2", [["run 1", "run 2", "run 3", "run 4"], ["stop"]], False, 2),
-    ("pool 2 1", [["run 1", "run 2"], ["run 3", "run 4"], ["stop"]], False, 1),
+    ("pool 2 2", [["run 1", "run 2", "run 3"], ["stop"]], True, 2),
+    ("pool 2 1", [["run 1", "run 2"], ["stop"]], False, 1),
+    ("pool 2 1", [["run 1"], ["run 2", "stop", "run 3"]], False, 1),
+    ("pool 3 0", [["run 1"], ["stop"]], False, 1),
+    ("pool 2 1", [["run 1", "run 2"], ["stop"]], False, 2),
 ]
 
 
